@@ -219,6 +219,19 @@ class VecV:
         return f'Vec{self.items}'
 
 
+class MapV:
+    """A hash map with concrete keys (the container itself is trusted)."""
+
+    def __init__(self, table=None):
+        self.table = dict(table or {})
+
+    def get(self, key):
+        return self.table[key]
+
+    def set(self, key, v):
+        self.table[key] = v
+
+
 class SetV:
     """Abstraction of a hash set: only its size is tracked."""
 
@@ -280,6 +293,7 @@ class State:
         self.taken = []
         self.alternatives = []  # (decision index, number of feasible options)
         self.ended = None       # reason when the path ends without returning (panic / unreachable)
+        self.tainted = False    # a value outside the numeric back end was havoc'd on this path
 
     def pc_term(self):
         return z3.And(*self.pc) if self.pc else z3.BoolVal(True)
@@ -596,6 +610,11 @@ class Engine:
                            'float -> int conversion within [0, 2^53]')
                 r = z3.ToInt(z3.fpToReal(z3.fpRoundToIntegral(z3.RTZ(), a.t)))
                 return IV(r, ty.strip())
+            if kind == 'FloatToInt' and isinstance(a, FV):
+                # integer-valued, non-negative, not the MAX sentinel: the conversion is the identity
+                lo, hi = INT_RANGES.get(ty.strip(), (None, None))
+                st.require(z3.And(z3.Not(a.m), a.v >= 0), 'f64 -> unsigned int conversion of a non-negative integer-valued double')
+                return IV(a.v, ty.strip())
             if kind == 'IntToFloat' and isinstance(a, IV):
                 st.require(z3.And(a.t <= LIM, a.t >= -LIM), 'int -> f64 conversion exact')
                 return FV(False, a.t)
@@ -722,6 +741,12 @@ class Engine:
                 return BV(f_eq(a, b))
             if op == 'Ne':
                 return BV(zs(z3.Not(f_eq(a, b))))
+            if op == 'Div' and getattr(self.env, 'havoc_div', False):
+                # not decidable in this back end: the quotient is an unconstrained value and the path is marked, claims that
+                # depend on it are not made
+                st.tainted = True
+                self.env._havoc = getattr(self.env, '_havoc', 0) + 1
+                return FV(False, z3.Int(f'havoc_div_{self.env._havoc}'))
             raise Inconclusive(f'f64 operation {op} is outside the exact-int back end')
         if isinstance(a, IV) and isinstance(b, IV):
             x, y = a.t, b.t
